@@ -29,7 +29,7 @@ use std::time::Duration;
 pub static INFO: PropInfo = PropInfo {
     id: "C18",
     level: "exploration",
-    rule: "one evaluation = one simulated pair (real NetcodeServer + real NetcodeClient, addressed datagram network with per-datagram drop / duplicate / delay decisions, virtual time, tick lengths {10,100,250,400 ms, irregular}, timeouts {1,5,15 s,-1}) in one of five seeded scenarios: (H) handshake under a fault phase (random loss up to 90 %, duplication, reordering, or scripted 'lose the first n copies of handshake packet k' for each of the four packets), then faults stop and the pair must be connected on both sides within B = 4*(250 ms + 2*dt_max) + 1 s unless the token expiry or the client's own timeout falls inside B or the server is full; variants with other clients connected, the limit raised above its construction value, lowered to full and raised again; (F) failover: 1-2 silent server addresses listed before the real one; (T) timeouts: connect, chatty phase with loss, then one or both directions go silent; at every update / update_client the deadline monitor demands a disconnect iff no authentic packet arrived for more than `timeout`, and forbids it while one arrived within `timeout`; the same history is run twice, once with injected datagrams (replayed Response / Request, random type-0 datagram, replayed / bit-flipped / wrong-key keep-alives, replayed Challenge) and the disconnect times of the twins are compared; (L) long lossy-but-live session in which each direction delivers at least one authentic packet per timeout/2: no disconnect allowed; (P) half-open entry (verif_pending hook) must vanish at the first update with floor(t) > expire, also under replayed requests. Non-trivial = the scenario's obligation was actually evaluated (deadline reached with preconditions true / a timeout verdict was taken / the pending entry was seen and then checked); distinct = distinct fingerprints of the datagram and state history.",
+    rule: "one evaluation = one simulated pair (real NetcodeServer + real NetcodeClient, addressed datagram network with per-datagram drop / duplicate / delay decisions, virtual time, tick lengths {10,100,250,400 ms, irregular}, timeouts {1,5,15 s,-1}) in one of five seeded scenarios: (H) handshake under a fault phase (random loss up to 90 %, duplication, reordering, or scripted 'lose the first n copies of handshake packet k' for each of the four packets), then faults stop and the pair must be connected on both sides within B = 4*(250 ms + 2*dt_max) + 1 s unless the token expiry or the client's own timeout falls inside B or the server is full; variants with other clients connected, the limit raised above its construction value, lowered to full and raised again; in half of the (H) and (F) pairs the applications STREAM: the server hands a payload to the session every tick from the moment it reports the client connected, the client likewise once connected; (F) failover: 1-2 silent server addresses listed before the real one; (T) timeouts: connect, chatty phase with loss, then one or both directions go silent; at every update / update_client the deadline monitor demands a disconnect iff no authentic packet arrived for more than `timeout`, and forbids it while one arrived within `timeout`; the same history is run twice, once with injected datagrams (replayed Response / Request, random type-0 datagram, replayed / bit-flipped / wrong-key keep-alives, replayed Challenge) and the disconnect times of the twins are compared; (L) long lossy-but-live session in which each direction delivers at least one authentic packet per timeout/2: no disconnect allowed; (P) half-open entry (verif_pending hook) must vanish at the first update with floor(t) > expire, also under replayed requests. Non-trivial = the scenario's obligation was actually evaluated (deadline reached with preconditions true / a timeout verdict was taken / the pending entry was seen and then checked); distinct = distinct fingerprints of the datagram and state history.",
     assumptions: &[
         "bounded liveness only: B = 4*(250 ms + 2*dt_max) + 1 s of virtual time after the fault phase; failover adds (timeout + 2*dt_max) per silent address",
         "authentic for the must-disconnect clause = first delivery of any datagram the peer really produced (lenient); for the must-not-disconnect clause only first deliveries of keep-alive / payload datagrams while connected count (strict); datagrams in between (a late Response after the server already connected the client) may or may not refresh",
@@ -37,6 +37,7 @@ pub static INFO: PropInfo = PropInfo {
         "timeout_seconds <= 0 means the timeout is disabled",
     ],
     gates: &[
+        ("stream.server_payloads_before_client_connected", 100),
         ("handshake.checked.plain", 40),
         ("handshake.checked.after-faults", 150),
         ("handshake.checked.failover", 40),
@@ -131,6 +132,9 @@ struct Pair {
     stop: bool,
     live_checks: u64,
     replies: u64,
+    /// the applications stream: the server hands a payload to the client's session every tick from the moment it
+    /// reports the client connected (a game server broadcasting state), the client does the same once connected
+    stream: bool,
 }
 
 fn ms(v: u64) -> Duration {
@@ -186,6 +190,7 @@ impl Pair {
             stop: false,
             live_checks: 0,
             replies: 0,
+            stream: false,
         })
     }
 
@@ -468,6 +473,22 @@ impl Pair {
                 }
             }
         }
+        if self.stream && !self.stop {
+            if self.srv.s.is_client_connected(self.id) {
+                if let Ok((_, b)) = self.srv.payload_for(self.id, b"state of the world") {
+                    out.count("stream.server_payloads");
+                    if !self.cli.c.is_connected() {
+                        out.count("stream.server_payloads_before_client_connected");
+                    }
+                    self.send(r, out, false, self.caddr, b);
+                }
+            }
+            if self.cli.c.is_connected() {
+                if let Ok((to, b)) = self.cli.payload(b"input") {
+                    self.send(r, out, true, to, b);
+                }
+            }
+        }
         if self.s_conn && !self.srv.s.is_client_connected(self.id) {
             // no ClientDisconnected was reported, yet the server no longer knows the client
             let d = format!(
@@ -643,13 +664,14 @@ fn scen_handshake(ctx: &Ctx, out: &mut Outcome, r: &mut Rng, run_seed: u64) {
         Ok(p) => p,
         Err(e) => return out.inconclusive(&format!("C18 setup: {e}")),
     };
+    p.stream = r.chance(1, 2);
     let connect_start = p.cnow;
     let expire_at = p.cli.minted.expire;
     let filled = fill(&mut p, r, others);
     if filled != others.min(construct_max) {
         return out.inconclusive("C18 setup: could not pre-fill the server");
     }
-    p.hist.push(format!("variant {} others {} max_clients(construction) {} tau {} dt {:?}", variant, others, construct_max, tau, fixed));
+    p.hist.push(format!("variant {} others {} max_clients(construction) {} tau {} dt {:?} stream {}", variant, others, construct_max, tau, fixed, p.stream));
     match variant {
         "limit-raised" => {
             if others == 0 {
@@ -729,7 +751,8 @@ fn scen_failover(ctx: &Ctx, out: &mut Outcome, r: &mut Rng, run_seed: u64) {
         Ok(p) => p,
         Err(e) => return out.inconclusive(&format!("C18 setup: {e}")),
     };
-    p.hist.push(format!("{} silent addresses listed before the real one, tau {} dt {:?}", silent, tau, fixed));
+    p.stream = r.chance(1, 2);
+    p.hist.push(format!("{} silent addresses listed before the real one, tau {} dt {:?} stream {}", silent, tau, fixed, p.stream));
     let expire_at = p.cli.minted.expire;
     let extra = (Duration::from_secs(tau as u64) + 2 * dt_max) * silent as u32;
     let start = p.cnow;
